@@ -246,6 +246,28 @@ def coq_table(classes):
     return "(fun c : nat => match c with " + " ".join(rows) + " | _ => {| params := []; bases := []; own := [] |} end)"
 
 
+def corpus():
+    """hierarchies that run first on every seed: shapes random generation reaches rarely"""
+    T = ("tv", 0)
+    return [
+        # Parent[T] -> Mid(Parent[int]) -> Leaf(Mid): a PLAIN leaf (no base written with arguments) below a binding class
+        [{"params": [0], "bases": [], "own": [(0, T), (1, tc(LIST, T))]}, {"params": [], "bases": [(0, [tc(INT)])], "own": []},
+         {"params": [], "bases": [(1, [])], "own": [(2, tc(STR))]}],
+        [{"params": [0], "bases": [], "own": [(0, T)]}, {"params": [], "bases": [(0, [tc(LIST, tc(STR))])], "own": [(1, tc(INT))]},
+         {"params": [], "bases": [(1, [])], "own": []}, {"params": [], "bases": [(2, [])], "own": [(2, tc(INT))]}],
+        # a plain intermediate class binds the variable, the generic child re-uses the same variable for its own field
+        [{"params": [0], "bases": [], "own": [(0, T)]}, {"params": [], "bases": [(0, [tc(INT)])], "own": []},
+         {"params": [0], "bases": [(1, [])], "own": [(1, T)]}],
+        # a generic child of a bound parent re-declares inherited fields with annotations spelled exactly like the parent's
+        [{"params": [0], "bases": [], "own": [(0, T), (1, tc(OPT, T))]},
+         {"params": [0], "bases": [(0, [tc(INT)])], "own": [(0, T), (1, tc(OPT, T))]}],
+        # two parameters swapped on the way down, then partially bound
+        [{"params": [0, 1], "bases": [], "own": [(0, ("tv", 0)), (1, ("tv", 1))]},
+         {"params": [0, 1], "bases": [(0, [("tv", 1), ("tv", 0)])], "own": [(2, tc(DICT, tc(STR), ("tv", 0)))]},
+         {"params": [1], "bases": [(1, [tc(STR), ("tv", 1)])], "own": []}],
+    ]
+
+
 def run(rep, tier, seed):
     from adaptix import Retort
     from adaptix.load_error import LoadError
@@ -258,8 +280,9 @@ def run(rep, tier, seed):
     coq_cases = []
     n_probe = n_fields = rejected_hier = 0
     samples = []
-    for ti in range(n_tables):
-        classes = tg.table()
+    fixed = corpus()
+    for ti in range(n_tables + len(fixed)):
+        classes = fixed[ti] if ti < len(fixed) else tg.table()
         for kind in (["dataclass"] if ti % 4 else ["dataclass", "attrs"]):
             pys = render(classes, kind)
             if pys is None:
